@@ -378,6 +378,9 @@ func c09Chain(c *mon.Case, sp c09Spec) {
 	}
 	c.Count("chain_devices", L)
 	c.Count("chain_clients", sp.Clients)
+	if L >= 5 {
+		c.Count("chain_deep_chains", 1) // the last connections carry routing headers of 6 and more words
+	}
 
 	nonce := fmt.Sprintf("%x", c.Rand.Uint64())
 	payload := func(tag string, cl, i int) []byte {
